@@ -477,3 +477,54 @@ pub fn gen_model_mixed(d: &mut Dna, cfg: &GenCfg, allow_fixture: bool) -> ModelG
 	}
 	crate::gen::gen_model(d, cfg)
 }
+
+/// Large games that cross 16-bit / 15-bit counters: many items, many frame rows, a big gecko list.
+pub const LARGE_CASES: usize = 3;
+pub fn large_model(i: usize) -> ModelGame {
+	use crate::gen::{payload, simple_model, Pattern};
+	use crate::model::{CharData, FrameOcc, Gecko};
+	use crate::spec::Kind;
+	match i % LARGE_CASES {
+		0 => {
+			// 300 rows x 250 items = 75 000 item events (> 2^16)
+			let v = (3, 16);
+			let mut m = simple_model((3, 16, 0), &[(1, false)], 0, 11, Pattern::Random, 1, true);
+			for fi in 0..300usize {
+				m.frames.push(FrameOcc {
+					id: spec::FIRST_FRAME + fi as i32,
+					start: Some(payload(Kind::FrameStart, v, fi as u64, Pattern::Random, 0)),
+					chars: vec![Some(CharData { pre: payload(Kind::Pre, v, fi as u64 + 1, Pattern::Random, 0), post: payload(Kind::Post, v, fi as u64 + 2, Pattern::Random, 0) })],
+					items: (0..250).map(|k| payload(Kind::Item, v, (fi * 1000 + k) as u64, Pattern::Random, 0)).collect(),
+					end: Some(payload(Kind::FrameEnd, v, fi as u64 + 3, Pattern::Random, 0)),
+				});
+			}
+			m
+		}
+		1 => {
+			// 70 000 frame rows (> 2^16), oldest layout, one character absent now and then
+			let v = (1, 0);
+			let mut m = simple_model((1, 0, 0), &[(0, false), (3, false)], 0, 12, Pattern::Random, 1, false);
+			for fi in 0..70_000usize {
+				m.frames.push(FrameOcc {
+					id: spec::FIRST_FRAME + fi as i32,
+					start: None,
+					chars: vec![
+						Some(CharData { pre: payload(Kind::Pre, v, fi as u64, Pattern::Random, 0), post: payload(Kind::Post, v, fi as u64 + 7, Pattern::Random, 0) }),
+						(fi % 1000 != 999).then(|| CharData { pre: payload(Kind::Pre, v, fi as u64 + 9, Pattern::Random, 0), post: payload(Kind::Post, v, fi as u64 + 11, Pattern::Random, 0) }),
+					],
+					items: vec![],
+					end: None,
+				});
+			}
+			m
+		}
+		_ => {
+			// gecko list of 400 blocks = 204 700 bytes: the 16-bit table entry wraps three times
+			let mut m = simple_model((3, 9, 0), &[(0, true)], 2, 13, Pattern::Random, 2, true);
+			let mut bytes = vec![0u8; 400 * 512];
+			crate::gen::SplitMix(99).fill(&mut bytes);
+			m.gecko = Some(Gecko { bytes, actual: 400 * 512 - 100 });
+			m
+		}
+	}
+}
